@@ -25,6 +25,8 @@ func checkC17(c *Ctx) {
 	// a wait performed while a lock is held makes every command that needs that lock wait as long (list, resume, remove
 	// and the rollout commands must return without waiting): shared with C18
 	r182(c, "R17.4 no-wait-while-holding-a-lock")
+	// pause/stop drain both slots at the same time, each bounded by the one drain timeout (shared with C03)
+	r033(c, "R17.5 drains-run-concurrently-and-join")
 }
 
 // commandReach: functions a command handler runs synchronously: static calls, closure arguments,
@@ -310,6 +312,6 @@ func r173(c *Ctx) {
 		}
 	}
 	c.ob(rule, "RemoveService/disposes-the-removed-service", rs.Pos(), ok, true, "remove must stop the probes of the service it unbinds")
-	r021(c)
+	r021(c, "R02.1 deploy-step-order")
 	r061(c, "R17.3b failed-deploy-disposes-new-balancer")
 }
